@@ -16,14 +16,24 @@
 
    No proofs in this file. *)
 From Coq Require Import ZArith List Bool.
-From TV Require gen.Consts.
+From TV Require gen.Consts gen.ServerIR.
+From TV Require Import model.ServerDen.
 Import ListNotations.
 Open Scope Z_scope.
 
-(* constants regenerated from the source on every run *)
-Definition cap : Z := Consts.MAX_QUEUE_DEPTH.                 (* asyncio.Queue(MAX_QUEUE_DEPTH) *)
-Definition threshold : Z := Consts.server_batch_threshold.    (* `if len(batch) >= 8` *)
-Definition gather_timeout_us : Z := 1000.                     (* wait_for(..., 1.0 / 1000) *)
+(* the parameters of the protocol are read from the IR regenerated from the source on every run
+   (gen/ServerIR.v, denotation in model/ServerDen.v).  When the source has no denotation the
+   scraped constants of gen/Consts.v keep the model executable for the correspondence; the tie
+   lemma proofs/ServerTie.v:server_ir_denotes_model fails in that case. *)
+Definition protocol : option params := den ServerIR.server.
+Definition cap : Z :=                                          (* asyncio.Queue(MAX_QUEUE_DEPTH) *)
+  match protocol with Some p => p_cap p | None => Consts.MAX_QUEUE_DEPTH end.
+Definition threshold : Z :=                                    (* `if len(batch) >= 8` *)
+  match protocol with Some p => p_threshold p | None => Consts.server_batch_threshold end.
+Definition gather_timeout_us : Z :=                            (* wait_for(..., 1.0 / 1000) *)
+  match protocol with Some p => p_timeout_us p | None => 1000 end.
+Definition pairing : ServerIR.idx :=                           (* b.probs = probs[i]; b.value = values[i] *)
+  match protocol with Some p => p_pair p | None => ServerIR.IdxI end.
 
 Definition qlen {X} (l : list X) : Z := Z.of_nat (length l).
 
@@ -135,7 +145,7 @@ Section Server.
       | Running b =>
         (* for (i, b) in enumerate(batch): b.probs = probs[i]; b.value = values[i]; b.ready.set() *)
         resume (mkSt (queue st) (blocked st) Idle (started st)
-                     (answers st ++ combine b (run_model (map rpos b))) (S (completed st))) t
+                     (answers st ++ combine b (pair_results pairing (run_model (map rpos b)))) (S (completed st))) t
       | _ => st
       end
     end.
